@@ -13,6 +13,7 @@
   first message that would push the reply past the size cap (`Spec.firstFitting`).
 -/
 import Emitter.Lemmas.Storage
+import Emitter.Props.Tie.Id
 namespace Emitter.C06
 open Emitter Emitter.Message Emitter.Storage
 
